@@ -85,7 +85,7 @@ def c02close : Drv where
         | [k, h, a] => some ⟨b acc, nat! k, nat! h, nat! a, 1 + nat! h⟩
         | _ => none
       let ids := List.range (nat! n)
-      let m := FwdMulti.mrun (FwdMulti.minit (nat! n)) ([.chainSee cs, .drainEvents] ++ ids.map fun i => FwdMulti.MOp.sendFulfilUp i)
+      let m := FwdMulti.mrunTab (FwdMulti.minit (nat! n)) ([.chainSee cs, .drainEvents] ++ ids.map fun i => FwdMulti.MOp.sendFulfilUp i)
       let got := ids.filter fun i => (m.hs i).up == .fulfilSent
       let ok := FwdMulti.coherent m
       ((), "claimed " ++ (if got.isEmpty then "-" else ",".intercalate (got.map toString)) ++ (if ok then "" else " INCOHERENT"))
